@@ -1,0 +1,11 @@
+//go:build !verif
+
+// Package verifhook provides instrumentation points for the external
+// verification harness. Without the "verif" build tag every call is a no-op.
+package verifhook
+
+// Enabled reports whether the hooks are compiled in.
+const Enabled = false
+
+// At marks an instrumentation point. It does nothing in regular builds.
+func At(point string, args ...any) {}
